@@ -43,6 +43,34 @@ def run(ctx):
                                     {"values": infer.short(vals, 400), "k": k, "order": infer.short(dup, 400)}, {"got": repr(got), "reference": repr(ref)})
                     else:
                         H.ok("%s|%s|%s" % (infer.short(vals), k, infer.short(dup)), sample=None)
+    # per-value inference followed by merging as stub generation does it (one trace per call, merged by shrink_traced_types)
+    from monkeytype.stubs import shrink_traced_types
+    from monkeytype.tracing import CallTrace
+    H.section("merge over call traces", "one CallTrace per observed value (argument, return, yield position), merged by shrink_traced_types, all orders: every observed value is a member; result independent of trace order",
+              "multisets of size 2-3 x k in {0,2,10}")
+    def fn(x):
+        return x
+    dicty = [m for m in ms if 2 <= len(m) <= 3 and sum(1 for v in m if isinstance(v, dict) or (isinstance(v, list) and v and isinstance(v[0], dict))) >= 2]
+    for vals in small[: (80 if tier == "quick" else 600)] + dicty[: (120 if tier == "quick" else 1000)]:
+        for k in (0, 2, 10):
+            refs = None
+            for perm in itertools.permutations(vals):
+                traces = [CallTrace(fn, {"x": get_type(v, k)}, get_type(v, k), get_type(v, k)) for v in perm]
+                args, ret, yld = shrink_traced_types(traces, k)
+                got = (args["x"], ret, yld)
+                bad = [v for v in vals for t in got if not spec_c.mem(v, t)]
+                key = "%s|%s|%s" % (infer.short(vals), k, infer.short(perm))
+                if bad:
+                    H.violation("monkeytype.stubs:shrink_traced_types", "traces-not-member:%s:%s" % (infer.short(vals), k), "type merged over call traces does not admit an observed value",
+                                {"values": infer.short(perm, 400), "k": k}, {"types": [repr(t) for t in got], "rejected": infer.short(bad)})
+                    break
+                if refs is None:
+                    refs = got
+                elif not all(spec_c.tyeq(a, b) for a, b in zip(got, refs)):
+                    H.violation("monkeytype.stubs:shrink_traced_types", "traces-order-dependent:%s:%s" % (infer.short(vals), k), "type merged over call traces depends on trace order",
+                                {"values": infer.short(perm, 400), "k": k}, {"got": [repr(t) for t in got], "reference": [repr(t) for t in refs]})
+                    break
+                H.ok(key, sample=None)
     return H.result()
 
 
